@@ -6,6 +6,8 @@ import GocoinV.Proofs.C19Inv
 namespace GocoinV.Proofs.C19
 open GocoinV GocoinV.Qdb GocoinV.QdbSpec
 
+variable {eg : Bool}
+
 theorem mem_isetAll (recs l : List (Key × Rec)) (kr : Key × Rec) (h : kr ∈ isetAll l recs) : kr ∈ l ∨ kr ∈ recs := by
   unfold isetAll at h
   induction recs generalizing l with
@@ -22,8 +24,8 @@ theorem mem_isetAll (recs l : List (Key × Rec)) (kr : Key × Rec) (h : kr ∈ i
 def loadedRec (fs : FS) (r : Rec) : Rec :=
   { r with data := some ((((dlookup r.seq fs.dats).getD []).drop r.pos).take r.len) }
 
-theorem loadFold_general (l : List (Key × Rec)) (d : DB) (hf : d.failed = none)
-    (hl : ∀ kr ∈ l, hasFlag kr.2.flags NO_CACHE = false ∧
+theorem loadFold_general (l : List (Key × Rec)) (d : DB) (hf : d.failed = none) (he : d.eager = eg)
+    (hl : ∀ kr ∈ l, hasFlag kr.2.flags (ncOf eg) = false ∧
       ∃ f v, dlookup kr.2.seq d.fs.dats = some f ∧ ReadsBack f kr.2 v) (acc : List (Key × Rec)) :
     l.foldl loadOne (d, acc) = (d, acc ++ mapV (loadedRec d.fs) l) := by
   induction l generalizing acc with
@@ -34,7 +36,7 @@ theorem loadFold_general (l : List (Key × Rec)) (d : DB) (hf : d.failed = none)
       unfold loadOne loadedRec
       have hu : u32 (kr.2.pos + kr.2.len) = kr.2.pos + kr.2.len := Nat.mod_eq_of_lt h2
       have hb : ¬ (kr.2.pos + kr.2.len < kr.2.pos ∨ kr.2.pos + kr.2.len > f.length) := by omega
-      simp only [hf, hnc, Bool.false_eq_true, ↓reduceIte, hfile, hu, hb, Option.getD_some]
+      simp only [hf, he, hnc, Bool.false_eq_true, ↓reduceIte, hfile, hu, hb, Option.getD_some]
     simp only [List.foldl_cons, hstep]
     rw [ih (fun x hx => hl x (List.mem_cons_of_mem _ hx))]
     simp [mapV, List.append_assoc]
@@ -61,9 +63,48 @@ theorem logSeqs_mem (es : List LogEntry) (k : Key) (r : Rec) (h : LogEntry.put k
   unfold logSeqs
   exact List.mem_filterMap.mpr ⟨.put k r, h, rfl⟩
 
+theorem applyLog_eager (es : List LogEntry) (db : DB) : (applyLog db es).eager = db.eager := by
+  unfold applyLog
+  induction es generalizing db with
+  | nil => rfl
+  | cons x t ih =>
+    simp only [List.foldl_cons]
+    refine (ih _).trans ?_
+    cases x with
+    | put k r => exact memput_eager db k r
+    | del k => exact memdel_eager db k
+
+/-- the ghost field of the store `NewDBidx` builds -/
+theorem openIndex_eager (F : FS) (vol : Bool) (opts : Opts) :
+    (openIndex { fs := F, volatile := vol, opts := opts, eager := eg }).eager = eg := by
+  unfold openIndex
+  dsimp only
+  refine (frame_cleanupold _ _).eager.trans ?_
+  have h1 : (loaddat { fs := F, volatile := vol, opts := opts, eager := eg }).1.eager = eg := by
+    unfold loaddat
+    cases pickIdx F with
+    | none => rfl
+    | some t =>
+      obtain ⟨i, sv, d⟩ := t
+      simp only []
+      rw [memputAll_eager]
+      rfl
+  generalize (loaddat { fs := F, volatile := vol, opts := opts, eager := eg }).1 = a at h1
+  generalize (loaddat { fs := F, volatile := vol, opts := opts, eager := eg }).2 = u
+  unfold loadlog
+  cases a.fs.log with
+  | none => exact h1
+  | some f =>
+    simp only []
+    cases logBody f a.verSeq with
+    | none => exact h1
+    | some body =>
+      show (applyLog a _).eager = eg
+      rw [applyLog_eager]; exact h1
+
 /-- the state `NewDBidx` is in just before `cleanupold`, and the data files it marks as used -/
 theorem openIndex_used (F : FS) (vol : Bool) (opts : Opts) :
-    ∃ dbB used, openIndex { fs := F, volatile := vol, opts := opts } = cleanupold dbB used ∧
+    ∃ dbB used, openIndex { fs := F, volatile := vol, opts := opts, eager := eg } = cleanupold dbB used ∧
       dbB.index = diskIndex F ∧ dbB.fs.dats = F.dats ∧ dbB.failed = none ∧
       (∀ kr ∈ diskIndex F, used.contains kr.2.seq = true) := by
   unfold openIndex
@@ -71,7 +112,7 @@ theorem openIndex_used (F : FS) (vol : Bool) (opts : Opts) :
   unfold diskIndex snapBase logEntries snapVer loaddat
   cases hp : pickIdx F with
   | none =>
-    simp only [show ({ fs := F, volatile := vol, opts := opts } : DB).fs = F from rfl, hp]
+    simp only [show ({ fs := F, volatile := vol, opts := opts, eager := eg } : DB).fs = F from rfl, hp]
     unfold loadlog
     cases hl : F.log with
     | none => exact ⟨_, _, rfl, by simp [applyEntriesL], rfl, rfl, by intro kr h; simp [applyEntriesL] at h⟩
@@ -79,13 +120,13 @@ theorem openIndex_used (F : FS) (vol : Bool) (opts : Opts) :
       simp only []
       cases hb : logBody f 0 with
       | none =>
-        simp only [show ({ fs := F, volatile := vol, opts := opts } : DB).verSeq = 0 from rfl, hb]
+        simp only [show ({ fs := F, volatile := vol, opts := opts, eager := eg } : DB).verSeq = 0 from rfl, hb]
         refine ⟨_, _, rfl, by simp [applyEntriesL, emit], ?_, rfl, by intro kr h; simp [applyEntriesL] at h⟩
         show (F.apply .removeLog).dats = F.dats
         rfl
       | some body =>
-        simp only [show ({ fs := F, volatile := vol, opts := opts } : DB).verSeq = 0 from rfl, hb]
-        obtain ⟨k1, k2, _⟩ := applyLog_keep (parseLog body.length body) ({ fs := F, volatile := vol, opts := opts } : DB)
+        simp only [show ({ fs := F, volatile := vol, opts := opts, eager := eg } : DB).verSeq = 0 from rfl, hb]
+        obtain ⟨k1, k2, _⟩ := applyLog_keep (parseLog body.length body) ({ fs := F, volatile := vol, opts := opts, eager := eg } : DB)
         refine ⟨_, _, rfl, ?_, ?_, ?_, ?_⟩
         · show (applyLog _ _).index = _
           rw [applyLog_index]
@@ -100,8 +141,8 @@ theorem openIndex_used (F : FS) (vol : Bool) (opts : Opts) :
             exact logSeqs_mem _ _ _ h
   | some t =>
     obtain ⟨i, sv, d⟩ := t
-    simp only [show ({ fs := F, volatile := vol, opts := opts } : DB).fs = F from rfl, hp]
-    let dbE : DB := { emit ({ fs := F, volatile := vol, opts := opts } : DB) "qdb.loadneweridx:removed" (.removeIdx (1 - i)) with
+    simp only [show ({ fs := F, volatile := vol, opts := opts, eager := eg } : DB).fs = F from rfl, hp]
+    let dbE : DB := { emit ({ fs := F, volatile := vol, opts := opts, eager := eg } : DB) "qdb.loadneweridx:removed" (.removeIdx (1 - i)) with
       datIdx := i, verSeq := sv }
     obtain ⟨hi, hv⟩ := memputAll_isetAll (snapshotRecs d) dbE
     obtain ⟨hfs, _, hfl⟩ := memputAll_fs (snapshotRecs d) dbE
@@ -190,9 +231,10 @@ def valOf (r : Rec) : Bytes := r.data.getD []
 /-- Opening (LoadData) a directory that satisfies the invariant with nothing pending does not fail and
     gives every key the value it has in memory. -/
 theorem open_of_inv (L : DB) (inv : DiskInv L) (hp : L.pending = []) (vol : Bool) (opts : Opts) :
-    (openDB L.fs vol true opts).failed = none ∧
-    ∀ k, (ilookup k (openDB L.fs vol true opts).index).map valOf = (ilookup k L.index).map valOf := by
-  obtain ⟨dbB, used, hoi, hidx, hdats, hfl, hused⟩ := openIndex_used L.fs vol opts
+    (openDB L.fs vol true opts L.eager).failed = none ∧
+    ∀ k, (ilookup k (openDB L.fs vol true opts L.eager).index).map valOf = (ilookup k L.index).map valOf := by
+  obtain ⟨dbB, used, hoi, hidx, hdats, hfl, hused⟩ := openIndex_used (eg := L.eager) L.fs vol opts
+  have hXe : (cleanupold dbB used).eager = L.eager := by rw [← hoi]; exact openIndex_eager L.fs vol opts
   have hfr := frame_cleanupold dbB used
   have hXi : (cleanupold dbB used).index = diskIndex L.fs := hfr.index.trans hidx
   have hXf : (cleanupold dbB used).failed = none := hfr.failed.trans hfl
@@ -223,11 +265,11 @@ theorem open_of_inv (L : DB) (inv : DiskInv L) (hp : L.pending = []) (vol : Bool
       unfold ReadsBack at h2 ⊢
       rw [hc.2.1, hc.2.2]
       exact h2
-  have hfold := loadFold_general (diskIndex L.fs) (cleanupold dbB used) hXf (by
+  have hfold := loadFold_general (diskIndex L.fs) (cleanupold dbB used) hXf hXe (by
     intro kr hkr
     obtain ⟨r, f, _, _, h3, h4⟩ := hrec kr hkr
     exact ⟨inv.dflags kr hkr, f, valOf r, by rw [hXd kr hkr]; exact h3, h4⟩) []
-  have hopen : openDB L.fs vol true opts = { loadAll (cleanupold dbB used) with
+  have hopen : openDB L.fs vol true opts L.eager = { loadAll (cleanupold dbB used) with
       dataSeq := u32 ((loadAll (cleanupold dbB used)).maxSeq + 1) } := by
     unfold openDB
     simp only [↓reduceIte]
